@@ -17,6 +17,8 @@ fn probes() -> Vec<ProbeDef> {
         // candidates with a blank, with a tab-separated description, and a longer twin
         ProbeDef { id: "4".into(), lines: vec!["sp ace".into(), "tb\twith descr".into(), "sp".into()] },
         ProbeDef { id: "5".into(), lines: vec![] },
+        // candidates that look like options of `echo`
+        ProbeDef { id: "6".into(), lines: vec!["-n".into(), "-e".into(), "-E".into(), "-ne".into(), "-x".into()] },
     ]
 }
 
@@ -69,6 +71,12 @@ pub fn family(tier: Tier, f: &mut dyn FnMut(G)) {
     f(call(E::Seq(vec![p("4"), lit("t")])));
     f(call(E::Seq(vec![E::Word(vec![lit("s="), p("4")]), lit("t")])));
     f(call(E::Alt(vec![p("4"), lit("spx")])));
+    // candidates that a careless `echo` would swallow
+    f(call(E::Seq(vec![p("6"), lit("t")])));
+    f(call(E::Seq(vec![E::Word(vec![lit("o="), p("6")]), lit("t")])));
+    // a literal-only word whose tables have the shape of a word with the second command
+    f(call(E::Alt(vec![p("1"), E::Word(vec![lit("--level"), E::Opt(Box::new(lit("=high")))]), E::Word(vec![lit("--user="), p("2")])])));
+    f(call(E::Alt(vec![p("1"), E::Word(vec![lit("--user="), p("2")]), E::Word(vec![lit("--level"), E::Opt(Box::new(lit("=high")))])])));
     // a word with a command, a word without, and a top-level command (shared tables)
     f(call(E::Seq(vec![E::Alt(vec![E::Word(vec![lit("--color="), E::Alt(vec![lit("always"), lit("never")])]), E::Word(vec![lit("--file="), p("2")])]), p("1")])));
     f(call(E::Seq(vec![p("1"), E::Alt(vec![E::Word(vec![lit("--c="), E::Alt(vec![lit("x"), lit("y")])]), E::Word(vec![lit("--f="), p("2")])])])));
